@@ -15,14 +15,14 @@ import (
 type rval interface{} // nil, int, rtrue, rsym, rstr, rlist, *rcond, *rmv, *rmutex, *rstream, *rclosure
 
 type (
-	rtrue struct{}
-	rsym  string
-	rstr  string
-	rlist []rval
-	rcond struct{ src int }        // condition made by error source src
-	rmv   struct{ vals []rval }    // multiple values
-	rmutex struct{ idx int }       // mutex variable m<idx>
-	rstream struct{ open bool }    // stream opened by with-open-file
+	rtrue    struct{}
+	rsym     string
+	rstr     string
+	rlist    []rval
+	rcond    struct{ src int }     // condition made by error source src
+	rmv      struct{ vals []rval } // multiple values
+	rmutex   struct{ idx int }     // mutex variable m<idx>
+	rstream  struct{ open bool }   // stream opened by with-open-file
 	rclosure struct {
 		params []string
 		body   []*sx
@@ -33,11 +33,11 @@ type (
 
 // error sources
 const (
-	srcError = iota // (error "c07")
-	srcDiv          // (/ 1 0)
-	srcCar          // (car 1)
-	srcUnbound      // reference to an unbound variable
-	srcControl      // exit with no lexically visible target: some error, class not pinned
+	srcError   = iota // (error "c07")
+	srcDiv            // (/ 1 0)
+	srcCar            // (car 1)
+	srcUnbound        // reference to an unbound variable
+	srcControl        // exit with no lexically visible target: some error, class not pinned
 )
 
 type env struct {
@@ -97,6 +97,7 @@ type refResult struct {
 	Held    uint32 // mutexes still held at the end
 	OpenEnd int    // streams still open at the end
 	Abort   string // non-empty: outside the oracle
+	Steps   int
 }
 
 func newRefRun(nMutex int) *refRun {
@@ -114,6 +115,7 @@ func runRef(forms []*sx, nMutex int) (res refResult) {
 	res.ErrSrc = -1
 	defer func() {
 		res.Trace = r.trace
+		res.Steps = r.steps
 		for i := range r.held {
 			if r.held[i] {
 				res.Held |= 1 << uint(i-1)
@@ -141,11 +143,22 @@ func runRef(forms []*sx, nMutex int) (res refResult) {
 	for _, f := range forms {
 		v = r.eval(f, r.global)
 	}
-	res.Value = showR(primary(v))
+	res.Value = showR(topPrimary(v))
 	return
 }
 
+// primary is the value a single-value position receives. The only multiple
+// values the subset can produce are the (nil, condition) of ignore-errors; how
+// slip narrows them belongs to another property (C01), so the oracle does not
+// judge programs in which they are consumed rather than discarded or returned.
 func primary(v rval) rval {
+	if _, ok := v.(*rmv); ok {
+		abort("multiple values consumed by a single-value position")
+	}
+	return v
+}
+
+func topPrimary(v rval) rval {
 	if mv, ok := v.(*rmv); ok {
 		if len(mv.vals) == 0 {
 			return nil
@@ -607,21 +620,35 @@ func (r *refRun) eval(f *sx, e *env) rval {
 			}
 			return nil
 		})
-	case "do":
+	case "do", "do*":
+		seq := h == "do*"
 		return r.inBlock("nil", e, func(be *env) rval {
 			ne := &env{parent: be, vars: map[string]rval{}}
 			binds := a[0].List
 			inits := make([]rval, len(binds))
 			for i, b := range binds {
 				if b.IsL && 1 < len(b.List) {
-					inits[i] = primary(r.eval(b.List[1], be))
+					if seq {
+						inits[i] = primary(r.eval(b.List[1], ne))
+						ne.vars[b.List[0].Atom] = inits[i]
+					} else {
+						inits[i] = primary(r.eval(b.List[1], be))
+					}
+				} else if seq {
+					if b.IsL {
+						ne.vars[b.List[0].Atom] = nil
+					} else {
+						ne.vars[b.Atom] = nil
+					}
 				}
 			}
-			for i, b := range binds {
-				if b.IsL {
-					ne.vars[b.List[0].Atom] = inits[i]
-				} else {
-					ne.vars[b.Atom] = nil
+			if !seq {
+				for i, b := range binds {
+					if b.IsL {
+						ne.vars[b.List[0].Atom] = inits[i]
+					} else {
+						ne.vars[b.Atom] = nil
+					}
 				}
 			}
 			end := a[1].List
@@ -633,17 +660,43 @@ func (r *refRun) eval(f *sx, e *env) rval {
 					return r.body(end[1:], ne)
 				}
 				r.tagbody(a[2:], ne)
-				steps := map[string]rval{}
+				type kv struct {
+					k string
+					v rval
+				}
+				var steps []kv
 				for _, b := range binds {
 					if b.IsL && 2 < len(b.List) {
-						steps[b.List[0].Atom] = primary(r.eval(b.List[2], ne))
+						v := primary(r.eval(b.List[2], ne))
+						if seq {
+							ne.vars[b.List[0].Atom] = v
+						} else {
+							steps = append(steps, kv{b.List[0].Atom, v})
+						}
 					}
 				}
-				for k, v := range steps {
-					ne.vars[k] = v
+				for _, st := range steps {
+					ne.vars[st.k] = st.v
 				}
 			}
 		})
+	case "multiple-value-bind":
+		v := r.eval(a[1], e)
+		var vals []rval
+		if mv, ok := v.(*rmv); ok {
+			vals = mv.vals
+		} else {
+			vals = []rval{v}
+		}
+		ne := &env{parent: e, vars: map[string]rval{}}
+		for i, p := range a[0].List {
+			if i < len(vals) {
+				ne.vars[p.Atom] = vals[i]
+			} else {
+				ne.vars[p.Atom] = nil
+			}
+		}
+		return r.body(a[2:], ne)
 	case "lambda":
 		return &rclosure{params: symList(a[0]), body: a[1:], env: e}
 	case "defun":
